@@ -363,6 +363,13 @@ func runSponge(op string, in M) M {
 			for i := range src {
 				src[i] = append(src[i], make(trinary.Trits, 243)...)
 			}
+		case "trit":
+			// outside C06's domain: a value that is not a trit, late in the last lane.  Whether such a call is accepted is
+			// not specified - but IF it is rejected, the state must be untouched like for any rejected call.  Done on a
+			// clone, so the instance's own history goes on whatever happens.
+			c = c.Clone()
+			last := src[len(src)-1]
+			last[len(last)-1-vIntOf(in["id"])%200] = []int8{2, -2, 3, 127, -128}[vIntOf(in["nblocks"])%5]
 		}
 		keep := make([]trinary.Trits, len(src))
 		for i := range src {
@@ -511,15 +518,25 @@ func genSponge(do func(string, M)) {
 			do("curl.squeeze", M{"id": 8, "nlanes": bs, "nblocks": 2, "bad": "", "audit": []int{}})
 			do("curl.squeeze", M{"id": 9, "nlanes": bs, "nblocks": 1, "bad": "", "audit": []int{}})
 		}
-		// an all-zero block at a later position in EVERY lane of the batch (the rate then holds only zero trits)
-		for _, bs := range []int{1, 3} {
+		// an all-zero block at a later position in EVERY lane of the batch (the rate then holds only zero trits), and in
+		// lane 0 / in the last lane only; anchored by TLC's own Curl-P-81 in the first traces (a deviation that is a function
+		// of the lane history is invisible to the relational clauses)
+		for v, bs := range []int{1, 3, 3, 2} {
 			lanes := make([][]int, bs)
 			for j := range lanes {
 				lanes[j] = []int{1 + r.Intn(nkeys), 0}
+				if (v == 2 && j != 0) || (v == 3 && j != bs-1) {
+					lanes[j][1] = 1 + r.Intn(nkeys)
+				}
+			}
+			au := []int{}
+			if tr < 2 && (v+tr)%2 == 0 {
+				au = []int{[]int{0, bs - 1}[(v/2+tr)%2]}
 			}
 			do("curl.new", M{"id": 6})
 			do("curl.absorb", M{"id": 6, "lanes": lanes, "nblocks": 2, "bad": ""})
-			do("curl.squeeze", M{"id": 6, "nlanes": bs, "nblocks": 2, "bad": "", "audit": []int{}})
+			do("curl.squeeze", M{"id": 6, "nlanes": bs, "nblocks": 1, "bad": "", "audit": au})
+			do("curl.squeeze", M{"id": 6, "nlanes": bs, "nblocks": 1, "bad": "", "audit": []int{}})
 		}
 		// a fresh instance that is squeezed before anything was absorbed, reset, and used again
 		do("curl.new", M{"id": 7})
@@ -579,6 +596,8 @@ func genSponge(do func(string, M)) {
 				dir[id], absorbed[id] = false, 0
 			case x < 18 && !dir[id]: // rejected absorb
 				do("curl.absorb", M{"id": id, "lanes": [][]int{{1}}, "nblocks": 1, "bad": []string{"batch0", "batch65", "len"}[r.Intn(3)]})
+				nbt := 1 + r.Intn(3)
+				do("curl.absorb", M{"id": id, "lanes": [][]int{make([]int, nbt), make([]int, nbt), make([]int, nbt)}[:1+r.Intn(3)], "nblocks": nbt, "bad": "trit"})
 			default: // rejected squeeze
 				do("curl.squeeze", M{"id": id, "nlanes": 1 + r.Intn(64), "nblocks": 1, "bad": []string{"batch0", "batch65", "len"}[r.Intn(3)], "audit": []int{}})
 			}
